@@ -825,6 +825,12 @@ func (ex *Exec) mapUpdate(fr *Frame, st *State, x *ssa.MapUpdate) {
 	k := ex.term(ex.operand(fr, st, x.Key), ks, "map key")
 	v := ex.term(ex.operand(fr, st, x.Value), vs, "map value")
 	dk, vk := MapDomKey(ks), MapValKey(ks, vs)
+	// an assignment to an entry of a nil map panics: the path ends there
+	if ex.safety(fr, "nil") && fr.top {
+		ex.oblige("safety:nilmap", "", x.Pos(), nil, st, ts.Neq(m, ts.Int(0)))
+	} else {
+		ex.assume(st.PC, ts.Neq(m, ts.Int(0)))
+	}
 	dom := ex.heapGet(st, dk, SArray(SInt, SArray(ks, SBool)))
 	val := ex.heapGet(st, vk, SArray(SInt, SArray(ks, vs)))
 	card := ex.heapGet(st, MapCardKey, SArray(SInt, SInt))
